@@ -132,6 +132,7 @@ class SymbolScenario(explore.Scenario):
         out.append(["pset", "M1", "add"])
         out.append(["kmove", None])
         out.append(["kmove", "B1"])
+        out.append(["lookups"])
         if self.can_save(w):
             out.append(["save_load"])
         for n in self.names[:2]:
@@ -227,6 +228,13 @@ class SymbolScenario(explore.Scenario):
             elif kind == "kmove":
                 O["K1"].byte_interval = None if op[1] is None else O[op[1]]
                 w.place["K1"] = op[1]
+            elif kind == "lookups":
+                # observations as an operation (may plant hidden caches)
+                for m in ("M1", "M2"):
+                    for n in self.names:
+                        list(O[m].symbols_named(n))
+                for b in ("K1", "K2", "P1"):
+                    list(O[b].references)
             elif kind == "save_load":
                 missing = self.save_load(w)
                 if missing:
